@@ -108,3 +108,26 @@ def x6(cx: Cx, ob: Ob) -> None:
     from .c02 import none_scope
 
     scan_none_discipline(cx, ob, none_scope(cx))
+
+
+@obligation("C06-X7", "IDX (shared with C01/C02): the lookup tables consulted by standardize_prefix / _curie / _uri hold every name of every record, unconditionally and completely, on the constructor path and in _index (converters built incrementally answer like freshly built ones)", floor=4)
+def x7(cx: Cx, ob: Ob) -> None:
+    from .c01 import check_table_roles
+
+    check_table_roles(cx, ob, ["prefix_map", "synonym_to_prefix", "reverse_prefix_map", "trie"])
+
+
+@obligation("C06-X8", "the Record model stores prefixes and URI prefixes verbatim: no pydantic string transformation (strip / case folding / length limits) in its model_config or field declarations", floor=1)
+def x8(cx: Cx, ob: Ob) -> None:
+    from ..rules import record_verbatim
+
+    record_verbatim(cx, ob)
+
+
+@obligation("C06-D6", "standardize_curie rewrites only the prefix part: _split cuts at the first occurrence of the (possibly multi-character) delimiter and the identifier flows untouched through parse_curie / standardize_identifier (shared with C02-D1/D5)", floor=3)
+def d6(cx: Cx, ob: Ob) -> None:
+    from .c02 import check_parse_curie_delimiter, check_parse_curie_flow, check_split
+
+    check_split(cx, ob)
+    check_parse_curie_delimiter(cx, ob)
+    check_parse_curie_flow(cx, ob)
